@@ -51,6 +51,9 @@ pub open spec fn http_like(endpoint: Seq<char>) -> bool {
 // ---- TRUSTED (A-STUB): names reduced to opaque values with a canonical text; tonic::Status reduced to its code
 pub struct SubscriptionName { pub x: u64 }
 pub struct TopicName { pub x: u64 }
+// the real names derive Clone (A-DERIVE: a clone is an equal value)
+impl Clone for SubscriptionName { #[verifier::external_body] fn clone(&self) -> (r: Self) ensures r == *self { unimplemented!() } }
+impl Clone for TopicName { #[verifier::external_body] fn clone(&self) -> (r: Self) ensures r == *self { unimplemented!() } }
 impl SubscriptionName {
     #[verifier::external_body]
     pub fn subscription_id(&self) -> (r: &str) { unimplemented!() }
@@ -142,6 +145,13 @@ pub mod subscriptions {
         #[verifier::external_body]
         pub fn get_subscription(&self, name: &SubscriptionName) -> (r: Result<Arc<Subscription>, GetSubscriptionError>)
             ensures r == self.lookup(*name)
+        { unimplemented!() }
+        /// outcome of `create_subscription(info, topic)` (same-project rule and State::create_subscription are under
+        /// contract in bundle B4: Ok exactly when the name is absent and the projects agree)
+        pub uninterp spec fn created(&self, info: SubscriptionInfo, topic: Arc<Topic>) -> Result<Arc<Subscription>, CreateSubscriptionError>;
+        #[verifier::external_body]
+        pub async fn create_subscription(&self, info: SubscriptionInfo, topic: Arc<Topic>) -> (r: Result<Arc<Subscription>, CreateSubscriptionError>)
+            ensures r == self.created(info, topic)
         { unimplemented!() }
     }
 }
@@ -278,12 +288,27 @@ pub mod subscriber {
     use super::subscriptions::{GetSubscriptionError, SubscriptionManager};
     pub mod parser {
         use super::super::*;
+        pub(crate) use super::super::parser::parse_push_config;
         #[verifier::external_body]
         pub fn parse_subscription_name(raw_value: &str) -> (r: Result<SubscriptionName, Status>)
             ensures (match parsed_sub(raw_value@) { Some(n) => r == Ok::<SubscriptionName, Status>(n), None => err_code(r) == Some(Code::InvalidArgument) })
         { unimplemented!() }
+        #[verifier::external_body]
+        pub fn parse_topic_name(raw_value: &str) -> (r: Result<TopicName, Status>)
+            ensures (match parsed_topic(raw_value@) { Some(n) => r == Ok::<TopicName, Status>(n), None => err_code(r) == Some(Code::InvalidArgument) })
+        { unimplemented!() }
     }
-    pub struct SubscriberService { pub subscription_manager: Arc<SubscriptionManager> }
+    // TRUSTED (A-STD): Option<Result<T, E>>::transpose
+    pub assume_specification<T, E>[ Option::<Result<T, E>>::transpose ](o: Option<Result<T, E>>) -> (r: Result<Option<T>, E>)
+        ensures r == (match o { None => Ok::<Option<T>, E>(None), Some(Ok(x)) => Ok::<Option<T>, E>(Some(x)), Some(Err(e)) => Err::<Option<T>, E>(e) });
+    use super::topics::TopicManager;
+    pub struct SubscriberService { pub subscription_manager: Arc<SubscriptionManager>, pub topic_manager: Arc<TopicManager> }
+    /// what the CreateSubscription handler hands to the manager for a request
+    pub open spec fn info_for(request: Subscription, info: SubscriptionInfo) -> bool {
+        &&& Some(info.name) == parsed_sub(request.name@)
+        &&& dur_ns(info.ack_deadline) == (if request.ack_deadline_seconds <= 10 { 10 } else { request.ack_deadline_seconds as int }) * 1_000_000_000
+        &&& (match request.push_config { None => info.push_config.is_none(), Some(p) => info.push_config.is_some() && super::parser::push_config_ok(p, info.push_config.unwrap()) })
+    }
 //@fn src/api/subscriber.rs conflict tags=C10
 //@ ret r
 //@ ensures[C10] r.code == Code::FailedPrecondition
@@ -337,6 +362,22 @@ pub mod subscriber {
 //@end
 
     impl SubscriberService {
+//@fn src/api/subscriber.rs SubscriberService::create_subscription tags=C10 keep-paths=1
+//@ ret r
+//@ # C17: names that do not parse and unsupported push endpoints are INVALID_ARGUMENT
+//@ ensures[C17] parsed_topic(request.m.topic@).is_none() || parsed_sub(request.m.name@).is_none() ==> err_code(r) == Some(Code::InvalidArgument)
+//@ ensures[C17] (match request.m.push_config { Some(p) => !http_like(trim_ws(p.push_endpoint@)) ==> err_code(r) == Some(Code::InvalidArgument), None => true })
+//@ # C10: OK means: the topic exists, and the manager created the subscription from exactly the request's name, the
+//@ # effective ack deadline max(seconds, 10) and the request's push configuration; the answer is the resource of
+//@ # that subscription with the configuration it stores
+//@ ensures[C10] (match r { Ok(resp) => exists|info: SubscriptionInfo, t: Arc<crate::topics::Topic>, s: Arc<crate::subscriptions::Subscription>, stored: SubscriptionInfo| #![trigger self.subscription_manager.created(info, t), stored_info(*s, stored)] info_for(request.m, info) && parsed_topic(request.m.topic@).is_some() && self.topic_manager.lookup(parsed_topic(request.m.topic@).unwrap()) == Ok::<Arc<crate::topics::Topic>, GetTopicError>(t) && self.subscription_manager.created(info, t) == Ok::<Arc<crate::subscriptions::Subscription>, CreateSubscriptionError>(s) && stored_info(*s, stored) && resp.m.name@ == display_sub(s.name) && (match stored.push_config { None => resp.m.push_config.is_none(), Some(c) => resp.m.push_config.is_some() && resource_push_ok(c, resp.m.push_config.unwrap()) }), Err(_) => true })
+//@ closure 1 ret st: Status
+//@ closure 1 ensures (match $1 { GetTopicError::DoesNotExist => st.code == Code::NotFound, GetTopicError::Closed => st.code == Code::FailedPrecondition })
+//@ closure 2 ret st: Status
+//@ closure 2 ensures (match $1 { CreateSubscriptionError::AlreadyExists => st.code == Code::AlreadyExists, CreateSubscriptionError::MustBeInSameProjectAsTopic => st.code == Code::InvalidArgument, CreateSubscriptionError::Closed => st.code == Code::FailedPrecondition })
+//@ closure 3 ret st: Status
+//@ closure 3 ensures st.code == Code::FailedPrecondition
+//@end
 //@fn src/api/subscriber.rs SubscriberService::get_subscription tags=C10 keep-paths=1
 //@ ret r
 //@ # C17 / C10: a name that does not parse is INVALID_ARGUMENT, an absent name NOT_FOUND
